@@ -105,6 +105,18 @@ type c18File struct {
 	Paths []string `json:"paths"`
 }
 
+// c18FieldName is the multipart field name of the i-th file: the client's choice (the map refers to
+// it), so not always "0".."n-1": numbered from one, or named
+func c18FieldName(n, i int) string {
+	switch n % 3 {
+	case 1:
+		return strconv.Itoa(i + 1)
+	case 2:
+		return "file" + string(rune('a'+i%26)) + strconv.Itoa(i/26)
+	}
+	return strconv.Itoa(i)
+}
+
 type c18Input struct {
 	Batch bool      `json:"batch"`
 	Ops   []c18Op   `json:"ops"`
@@ -346,7 +358,7 @@ func c18HTTP(in *c18Input) (obs c18Obs) {
 	}
 	fmap := map[string][]string{}
 	for i, f := range in.Files {
-		fmap[strconv.Itoa(i)] = f.Paths
+		fmap[c18FieldName(len(in.Files)+len(in.Ops), i)] = f.Paths
 	}
 	mapBytes, _ := json.Marshal(fmap)
 	var body bytes.Buffer
@@ -356,7 +368,7 @@ func c18HTTP(in *c18Input) (obs c18Obs) {
 	fw, _ = w.CreateFormField("map")
 	fw.Write(mapBytes)
 	for i, f := range in.Files {
-		fw, _ = w.CreateFormFile(strconv.Itoa(i), f.Name)
+		fw, _ = w.CreateFormFile(c18FieldName(len(in.Files)+len(in.Ops), i), f.Name)
 		fw.Write([]byte("content"))
 	}
 	w.Close()
@@ -662,7 +674,7 @@ func c18HTTPFull(in *c18Input) hObs {
 	}
 	fmap := map[string][]string{}
 	for i, f := range in.Files {
-		fmap[strconv.Itoa(i)] = f.Paths
+		fmap[c18FieldName(len(in.Files)+len(in.Ops), i)] = f.Paths
 	}
 	mapBytes, _ := json.Marshal(fmap)
 	var body bytes.Buffer
@@ -672,7 +684,7 @@ func c18HTTPFull(in *c18Input) hObs {
 	fw, _ = w.CreateFormField("map")
 	fw.Write(mapBytes)
 	for i, f := range in.Files {
-		fw, _ = w.CreateFormFile(strconv.Itoa(i), f.Name)
+		fw, _ = w.CreateFormFile(c18FieldName(len(in.Files)+len(in.Ops), i), f.Name)
 		fw.Write([]byte("content"))
 	}
 	w.Close()
